@@ -115,6 +115,12 @@ CHECKS["C19"] = dict(engine="markup", design="4 C19", technique="TLA+ model chec
          "names with and without trailing punctuation, paragraphs, entities, whitespace, ordinary-word party names emphasised later in lower case, parallel citations) x three step lists containing html is extracted in "
          "markup mode and in plain mode on the cleaned text; TLC judges: non-reference citations identical, reference offsets valid, each reference after a full case citation one of whose valid names occurs in its text."),
    note="Trusted: TLC + Json; the name-validity rule is transcribed in the harness; the witness (which full citation / name / offset) is searched by the harness and verified by TLC.")
+CHECKS["C05"] = dict(engine="scenario", design="4 C05", technique="TLA+ model checking of Scenario.tla on top of Resolve.tla + every scenario rendered into one running text through get_citations and resolve_citations + TLC trace validation",
+   text=("Scenario.tla builds documents sentence by sentence over 2-3 distinct cases with distinct or colliding (reporter, volume) (F.2d / F.3d with the same volume; the same reporter and volume), each reference "
+         "labelled with the case it was written to refer to, whether it is unambiguous in the property's sense and whether it must be left out; TLC checks on the Resolve.tla model that every unambiguous reference "
+         "joins its intended case, impossible-pin ids and ids after an unresolved citation join nothing, one resource per case. Every scenario (quick: 30,000 per configuration) is rendered into ONE running text, "
+         "extracted and resolved by the real code, and TLC judges the recorded grouping with the same clauses."),
+   note="Trusted: TLC + Json; rendering of sentences (harness/drv_extract.py); a sentence not extracted as exactly one citation of the written kind makes the document 'not judged' (counted; extraction is C01).")
 NA_REASON = "check not built yet (work in progress; see DESIGN.md section 10 build order)"
 checks = []
 for p in props:
@@ -156,6 +162,8 @@ m = {"version": 1,
               "serves_properties": ["C14"], "kind_free_text": "TLA+ specs, TLC model checking, fault replay on real cache files, TLC-judged differential candidates"},
              {"name": "markup", "path": "spec/Markup.tla spec/MC_Markup.tla spec/Trace_Markup.tla harness/chk_markup.py harness/drv_extract.py",
               "serves_properties": ["C19"], "kind_free_text": "TLA+ spec, TLC model checking, TLC-judged markup-vs-plain comparison"},
+             {"name": "scenario", "path": "spec/Scenario.tla spec/MC_Scenario.tla spec/Trace_Scenario.tla spec/Resolve.tla harness/chk_scenario.py harness/drv_extract.py",
+              "serves_properties": ["C05"], "kind_free_text": "TLA+ scenario spec over the resolution model, TLC model checking, running-text replay, TLC trace validation"},
              {"name": "annotate", "path": "spec/Annotate.tla spec/SpanUpdater.tla spec/MC_Annotate.tla spec/MC_SpanUpdater.tla spec/Trace_Annotate.tla spec/Trace_SpanUpdater.tla harness/chk_annotate.py harness/drv_annotate.py",
               "serves_properties": ["C09", "C10", "C11"], "kind_free_text": "TLA+ spec, TLC model checking, configuration replay, TLC trace validation"}],
  "checks": checks,
